@@ -69,49 +69,71 @@ func TestC14Race(t *testing.T) {
 // A working set larger than the inode cache: several clients look at 160 files in different orders (every request
 // a cache miss that evicts somebody else's entry) while others write, truncate and read the shared files.
 func TestC14BigSet(t *testing.T) {
-	rapid.Check(t, func(t *rapid.T) {
-		d := NewDisk(9000)
-		d.SetRecord(false)
-		w, err := setupWorld(rapid.Bool().Draw(t, "unstable"), false, d)
-		if err != nil {
-			t.Skip("setup failed")
+	rapid.Check(t, func(t *rapid.T) { runBigSet(t, "C14") })
+}
+
+// runBigSet: the program described above; under the race detector for C14, and for C08 with the oracle "every
+// handle keeps answering with the object it was issued for" (judged by the sweeps themselves, and once more
+// sequentially at the end and after a restart).
+func runBigSet(t *rapid.T, prop string) {
+	d := NewDisk(9000)
+	d.SetRecord(false)
+	w, err := setupWorld(rapid.Bool().Draw(t, "unstable"), false, d)
+	if err != nil {
+		t.Skip("setup failed")
+	}
+	if err := w.addExtras(160); err != nil {
+		t.Skip("setup failed")
+	}
+	w.S.Restart() // cold caches
+	var tag uint32
+	var progs [][]cOp
+	for c := 0; c < rapid.IntRange(1, 3).Draw(t, "writers"); c++ {
+		var prog []cOp
+		for i := 0; i < rapid.IntRange(4, 10).Draw(t, "nops"); i++ {
+			prog = append(prog, genCOp(t, cGenCfg{DataOps: true}, &tag))
 		}
-		if err := w.addExtras(160); err != nil {
-			t.Skip("setup failed")
+		progs = append(progs, prog)
+	}
+	for c := 0; c < rapid.IntRange(2, 6).Draw(t, "sweepers"); c++ {
+		var prog []cOp
+		for i := 0; i < rapid.IntRange(1, 3).Draw(t, "nsweeps"); i++ {
+			prog = append(prog, cOp{Kind: "sweep", Off: rapid.Uint64Range(0, 1000).Draw(t, "rotation")})
 		}
-		w.S.Restart() // cold caches
-		var tag uint32
-		var progs [][]cOp
-		for c := 0; c < rapid.IntRange(1, 3).Draw(t, "writers"); c++ {
-			var prog []cOp
-			for i := 0; i < rapid.IntRange(4, 10).Draw(t, "nops"); i++ {
-				prog = append(prog, genCOp(t, cGenCfg{DataOps: true}, &tag))
+		progs = append(progs, prog)
+	}
+	var yield uint64
+	if rapid.Bool().Draw(t, "yields") {
+		yield = rapid.Uint64Range(1, 1<<62).Draw(t, "yieldseed")
+	}
+	stopStats := statsReader(w, prop == "C14" && rapid.Bool().Draw(t, "statsreader"))
+	run := w.runConcurrent(progs, yield, false, 30*time.Second, nil)
+	stopStats()
+	if run.Slow || (run.Hung && prop == "C14") {
+		St.Class("run_not_judged")
+		t.Skip("not judged here (C06's subject)")
+	}
+	if prop == "C08" {
+		detail := map[string]any{"history": describeHistory(run.Ops)}
+		if run.Hung || run.Panic != "" {
+			failf(t, "C08", detail, "requests through handles of files nobody changes do not return or panic: %s %s", run.Panic, trunc(run.Dump, 2000))
+		}
+		for _, o := range run.Ops {
+			if o.Input.(cOp).Kind == "sweep" && !o.Output.(cRes).OK {
+				failf(t, "C08", detail, "GETATTR through the handle of a file nobody changes failed or described another object (client %d)", o.ClientId)
 			}
-			progs = append(progs, prog)
 		}
-		for c := 0; c < rapid.IntRange(2, 6).Draw(t, "sweepers"); c++ {
-			var prog []cOp
-			for i := 0; i < rapid.IntRange(1, 3).Draw(t, "nsweeps"); i++ {
-				prog = append(prog, cOp{Kind: "sweep", Off: rapid.Uint64Range(0, 1000).Draw(t, "rotation")})
+		for _, when := range []string{"after the run", "after a restart"} {
+			if r := w.exec(w.S.API(), cOp{Kind: "sweep"}); !r.OK {
+				failf(t, "C08", detail, "%s: GETATTR through the handle of a file nobody changes failed or described another object", when)
 			}
-			progs = append(progs, prog)
+			w.S.Restart()
 		}
-		var yield uint64
-		if rapid.Bool().Draw(t, "yields") {
-			yield = rapid.Uint64Range(1, 1<<62).Draw(t, "yieldseed")
-		}
-		stopStats := statsReader(w, rapid.Bool().Draw(t, "statsreader"))
-		run := w.runConcurrent(progs, yield, false, 30*time.Second, nil)
-		stopStats()
-		if run.Slow || run.Hung {
-			St.Class("run_not_judged")
-			t.Skip("not judged here (C06's subject)")
-		}
-		w.S.Stop()
-		St.Eval(1)
-		St.NT(Hash("bigset", describeHistory(run.Ops)))
-		St.Class("program_with_a_working_set_larger_than_the_inode_cache")
-	})
+	}
+	w.S.Stop()
+	St.Eval(1)
+	St.NT(Hash("bigset", describeHistory(run.Ops)))
+	St.Class("program_with_a_working_set_larger_than_the_inode_cache")
 }
 
 // statsReader: what cmd/go-nfsd does on a signal or a timer while requests are being served - the per-procedure
